@@ -349,3 +349,17 @@ package core
 //@   ensures [tip]   result == nil ==> group != nil && old(bytes(group.Header.PreGroup)) == old(@select(@gids, chain.count - 1))
 //@   ensures [fail]  result != nil ==> ghost(kv) == old(ghost(kv)) && ghost(kvhas) == old(ghost(kvhas)) && chain.count == old(chain.count)
 //@   modifies chain.count, chain.lastGroup, group.GroupHeight, group.Header.WorkHeight, group.Header.DismissHeight, ghost(kv), ghost(kvhas)
+
+// ---------------------------------------------------------------------------------------------
+// The fee of a failed transaction (C06): deductGasFee moves min(fee, balance) from the sender to the fee account.
+// It may not create or destroy RPG, and the sender's balance stays >= 0 - also when the balance does not cover
+// the fee (SubBalance refuses a debit above the balance, AddBalance credits unconditionally).
+//@ func deductGasFee
+//@   property C06
+//@   option intmode=math
+//@   requires [wf] forall a common.Address :: balOf(a) >= 0
+//@   requires [env!init] txLogger != nil && types.DefaultGasPrice != nil && big(types.DefaultGasPrice) >= 0
+//@   ensures [conserved] ghost(supply) == old(ghost(supply))
+//@   ensures [charged]   accountdb != nil && hexAddr(source) != common.FeeAccount ==> balOf(hexAddr(source)) == old(balOf(hexAddr(source))) - ite(old(balOf(hexAddr(source))) < gasUsed * big(types.DefaultGasPrice), old(balOf(hexAddr(source))), gasUsed * big(types.DefaultGasPrice))
+//@   ensures [credited]  accountdb != nil && hexAddr(source) != common.FeeAccount ==> balOf(common.FeeAccount) == old(balOf(common.FeeAccount)) + (old(balOf(hexAddr(source))) - balOf(hexAddr(source)))
+//@   modifies ghost(bal), ghost(supply)
